@@ -106,13 +106,70 @@ func oracle(c rescorr.Case, ms *yang.Modules, errs []error, out *rescorr.GoOut) 
 		}
 	}
 	done := map[*yang.Module]bool{}
+	var roots []*yang.Entry
+	var rootNames []string
 	for _, mm := range []map[string]*yang.Module{ms.Modules, ms.SubModules} {
 		for _, m := range mm {
 			if done[m] {
 				continue
 			}
 			done[m] = true
-			walk(yang.ToEntry(m), nil, "", "/"+m.FullName(), true)
+			// every module and submodule, also one that only deviates or augments and owns no data
+			// node: what is recorded on its root entry after the last sweep is found here only
+			e := yang.ToEntry(m)
+			walk(e, nil, "", "/"+m.FullName(), true)
+			if ge := e.GetErrors(); len(ge) > 0 {
+				add(fmt.Sprintf("GetErrors after a clean Process at /%s: %v", m.FullName(), ge[0]))
+			}
+			roots = append(roots, e)
+			rootNames = append(rootNames, m.FullName())
+		}
+	}
+	// a reader's lookups (Path, Namespace, InstantiatingModule, ReadOnly, Find of rpc input/output)
+	// must not leave a recorded error behind either
+	seenR := map[*yang.Entry]bool{}
+	var read func(e *yang.Entry, depth int)
+	read = func(e *yang.Entry, depth int) {
+		if e == nil || seenR[e] || depth > 60 {
+			return
+		}
+		seenR[e] = true
+		_ = e.Path()
+		_ = e.Namespace()
+		e.InstantiatingModule()
+		_ = e.ReadOnly()
+		if e.RPC != nil {
+			read(e.Find("input"), depth+1)
+			read(e.Find("output"), depth+1)
+		}
+		for _, ch := range e.Dir {
+			read(ch, depth+1)
+		}
+	}
+	seenW := map[*yang.Entry]bool{}
+	var errWalk func(e *yang.Entry, path string)
+	errWalk = func(e *yang.Entry, path string) {
+		if e == nil || seenW[e] {
+			return
+		}
+		seenW[e] = true
+		if len(e.Errors) > 0 {
+			add(fmt.Sprintf("recorded error after reading the trees of a clean Process at %s: %v", path, e.Errors[0]))
+		}
+		for k, ch := range e.Dir {
+			errWalk(ch, path+"/"+k)
+		}
+		if e.RPC != nil {
+			errWalk(e.RPC.Input, path+"/input")
+			errWalk(e.RPC.Output, path+"/output")
+		}
+	}
+	if len(out.Findings) == 0 {
+		for _, e := range roots {
+			read(e, 0)
+		}
+		for i, e := range roots {
+			errWalk(e, "/"+rootNames[i])
 		}
 	}
 }
@@ -174,6 +231,29 @@ func main() {
 		if c, ok := pathCase(r, set, names, texts); ok {
 			cases = append(cases, c)
 		}
+	}
+	// odd prefixes on later path steps: deviation (and some augment) targets whose steps after the
+	// first carry a prefix the writing module does not declare (undeclared / foreign but not
+	// imported / the module name / none).  The deviations are applied after the last error sweep:
+	// whatever is recorded on a node there is only seen by the oracle
+	nPfx := n / 4
+	for i := 0; i < nPfx; i++ {
+		r := f.Rand(4000003 + i)
+		set := gen.Generate(r, cfg)
+		if i%5 == 0 {
+			gen.AddLateAugments(r, set)
+		}
+		k := gen.AddOddPrefixes(r, set)
+		names, texts := set.Files()
+		c := rescorr.Case{Names: names, Texts: texts, Extra: map[string]string{"label": "oddprefix"}}
+		if k > 0 {
+			c.Extra["odd_paths"] = fmt.Sprint(k)
+		}
+		c.IgnoreNotSupported = r.Intn(3) == 0
+		if i%6 == 5 {
+			c.Extra["runs"] = "prp"
+		}
+		cases = append(cases, c)
 	}
 	// repeated runs on one Modules value: the caller has processed before, and may have cleared the
 	// entry cache, read trees (lazy rebuild, lazily created rpc input/output), looked modules up with
@@ -262,6 +342,9 @@ func main() {
 			if o.Case.Extra["label"] == "late" || o.Case.Extra["label"] == "corpus" {
 				res.Count("clean_sets_with_late_augments", 1)
 			}
+			if o.Case.Extra["odd_paths"] != "" {
+				res.Count("clean_sets_with_odd_prefixes_on_later_path_steps", 1)
+			}
 			if k := o.Case.Extra["runs"]; k != "" {
 				res.Count("clean_last_runs_of_a_sequence:"+k, 1)
 			}
@@ -279,7 +362,7 @@ func main() {
 	res.Evaluations = int64(len(cases))
 	_ = nCorpus
 	res.DistinctNontrivial = distinct.Len()
-	res.Rule = "seeded grammar-directed module sets (harness/gen: 1-3 modules, submodules with nested includes, groupings/uses, choices, rpc/action, notifications, augments, deviations, tiny name pools, deliberate faults at a low rate; plus n/4 sets with late augments added by gen.AddLateAugments - target through or at an implied case, body with short-hand choice members, written in owner / submodule / importer - and a fixed corpus of such sets; plus n/4 sets in the files-on-disk variant: only the root modules (nobody imports them), a random subset, or one module are handed to Parse, the rest lies on the search path and is loaded by Process, the oracle walks every module that ended up loaded and the model is asked with exactly the loaded texts; plus n/4 sets where the checked Process run is the last of a sequence on one Modules value: Process twice / ClearEntryCache in between / reads with lazy input-output creation in between / cleared cache and lazy rebuild by ToEntry in between / opposite ParseOptions and AddPath before / GetModule in between); distinct_nontrivial = distinct sets (by text) on which Process reports no errors, i.e. where the tree invariant is actually checked"
+	res.Rule = "seeded grammar-directed module sets (harness/gen: 1-3 modules, submodules with nested includes, groupings/uses, choices, rpc/action, notifications, augments, deviations, tiny name pools, deliberate faults at a low rate; plus n/4 sets with late augments added by gen.AddLateAugments - target through or at an implied case, body with short-hand choice members, written in owner / submodule / importer - and a fixed corpus of such sets; plus n/4 sets in the files-on-disk variant: only the root modules (nobody imports them), a random subset, or one module are handed to Parse, the rest lies on the search path and is loaded by Process, the oracle walks every module that ended up loaded and the model is asked with exactly the loaded texts; plus n/4 sets where the checked Process run is the last of a sequence on one Modules value: Process twice / ClearEntryCache in between / reads with lazy input-output creation in between / cleared cache and lazy rebuild by ToEntry in between / opposite ParseOptions and AddPath before / GetModule in between; plus n/4 sets whose deviation and augment targets carry undeclared / unimported / module-name / no prefixes on the steps after the first (gen.AddOddPrefixes)); distinct_nontrivial = distinct sets (by text) on which Process reports no errors, i.e. where the tree invariant is actually checked"
 	res.Distribution["clean_sets"] = clean
 	res.Distribution["sets_with_errors"] = withErr
 	res.Distribution["sets_with_late_errors(merge/deviation)"] = late
@@ -383,6 +466,26 @@ func corpusCases() []rescorr.Case {
 		return c
 	}
 	var seq []rescorr.Case
+	// deviation / augment targets with a prefix the writing module does not declare on a later step
+	// (goyang strips it unseen): undeclared, the module name, a foreign module's prefix that is not
+	// imported, none; on middle and last steps, below an rpc input, in a module that owns no node
+	seq = append(seq, mk("base.yang", `module base { namespace "urn:b"; prefix b;
+  container c { leaf l { type string; } leaf-list m { type string; max-elements 4; } container d { leaf e { type string; } } }
+  rpc r { input { leaf x { type string; } } }
+  rpc bare;
+}
+`, "other.yang", `module other { namespace "urn:o"; prefix o; leaf unrelated { type string; } }
+`, "dev.yang", `module dev { namespace "urn:d"; prefix d; import base { prefix b; }
+  deviation "/b:c/bs:l" { deviate replace { type uint8; } }
+  deviation "/b:c/base:m" { deviate replace { max-elements 2; } }
+  deviation "/b:r/b:input/o:x" { deviate add { default "dflt"; } }
+  deviation "/b:c/zz:d/e" { deviate add { config false; } }
+  deviation "/b:bare/bs:output" { deviate add { config false; } }
+  augment "/b:c/o:d" { leaf more { type string; } }
+  augment "/b:r/zz:input" { leaf y { type string; } }
+}
+`))
+	seq[len(seq)-1].Extra["label"] = "corpus-oddprefix"
 	for _, k := range []string{"pp", "pcp", "prp", "pctp", "pop", "pgp"} {
 		c := mk("base.yang", `module base { namespace "urn:base"; prefix b;
   container top { leaf name { type string; } leaf gone { type string; } choice kind { leaf a { type string; } container c { leaf x { type string; } } } }
